@@ -184,5 +184,7 @@ def run(ctx: RuleContext, p: Program) -> None:
     ctx.try_rule(rule_op_pair, p, 'OP-PAIR')
     ctx.try_rule(rule_op_level, p, 'OP-LEVEL')
     ctx.try_rule(rule_op_own, p, 'OP-OWN')
+    from . import round4
+    ctx.try_rule(round4.rule_set_covers, p, 'SET-COVERS')
     ctx.not_decided += ['decimal arithmetic results', 'precedence / associativity of parsed trees (grammar)', 're-parse of printed results']
     ctx.assumptions += ['primitive models of the effect interpreter (see C19)', 'lark grammar compiled as for the repository']
